@@ -38,6 +38,9 @@ pub enum AOp {
     Yield,
     Add,
     Await(usize),
+    /// poll the child's JoinHandle once in this task; if it is still pending, hand the handle to a
+    /// helper task and await the helper (the handle's second poll comes with another task's waker)
+    AwaitMoved(usize),
     AbortThenAwait(usize),
     AbortTwiceThenAwait(usize),
     Detach(usize),
@@ -226,6 +229,16 @@ fn run_atask(w: Arc<AWorld>, t: usize) -> Pin<Box<dyn Future<Output = i64> + Sen
                         body_event(A_JOIN, c as i64, match r { Ok(v) => v, Err(JoinError::Cancelled) => -1 });
                     }
                 }
+                AOp::AwaitMoved(c) => {
+                    if let Some(mut h) = handles.remove(&c) {
+                        let first = std::future::poll_fn(|cx| Poll::Ready(Pin::new(&mut h).poll(cx))).await;
+                        let r = match first {
+                            Poll::Ready(r) => r,
+                            Poll::Pending => sfuture::spawn(async move { h.await }).await.expect("helper task"),
+                        };
+                        body_event(A_JOIN, c as i64, match r { Ok(v) => v, Err(JoinError::Cancelled) => -1 });
+                    }
+                }
                 AOp::AbortThenAwait(c) | AOp::AbortTwiceThenAwait(c) => {
                     if let Some(h) = handles.remove(&c) {
                         body_event(A_ABORT_CALL, c as i64, 0);
@@ -366,7 +379,14 @@ pub fn gen_prog(rng: &mut Rng, max_tasks: usize) -> AProg {
         }
         for c in cs {
             tasks[t].push(match handling[c] {
-                0 | 1 => AOp::Await(c),
+                0 => AOp::Await(c),
+                1 => {
+                    if rng.chance(1, 2) {
+                        AOp::AwaitMoved(c)
+                    } else {
+                        AOp::Await(c)
+                    }
+                }
                 2 => AOp::AbortThenAwait(c),
                 3 => AOp::AbortTwiceThenAwait(c),
                 4 => AOp::Detach(c),
@@ -393,6 +413,15 @@ fn nested_progs() -> Vec<AProg> {
             slots: 2,
             must_deadlock: false,
         },
+    ]
+}
+
+/// A JoinHandle that is polled by one task and completed while another task awaits it.
+fn moved_handle_progs() -> Vec<AProg> {
+    vec![
+        AProg { tasks: vec![vec![AOp::Spawn(1), AOp::AwaitMoved(1)], vec![AOp::Yield, AOp::Add, AOp::Yield]], slots: 1, must_deadlock: false },
+        AProg { tasks: vec![vec![AOp::Spawn(1), AOp::Spawn(2), AOp::AwaitMoved(1), AOp::Await(2)], vec![AOp::Pend(0)], vec![AOp::Yield, AOp::Wake(0)]], slots: 1, must_deadlock: false },
+        AProg { tasks: vec![vec![AOp::Spawn(1), AOp::Await(1)], vec![AOp::Spawn(2), AOp::Yield, AOp::AwaitMoved(2)], vec![AOp::Yield, AOp::Yield, AOp::Add]], slots: 1, must_deadlock: false },
     ]
 }
 
@@ -636,6 +665,11 @@ pub fn run(r: &mut Report) {
     let mut items: Vec<(AProg, usize, u64)> = vec![];
     for p in deadlock_progs() {
         for k in [0usize, 2, 6] {
+            items.push((p.clone(), k, rng.next()));
+        }
+    }
+    for p in moved_handle_progs() {
+        for k in [0usize, 2, 5, 6] {
             items.push((p.clone(), k, rng.next()));
         }
     }
